@@ -928,7 +928,16 @@ fn gen_air_alias(rng: &mut Rng, tab: &[(i128, u32)]) -> Hist {
     let addr = random_addr(rng, &[]);
     let kt = 600.0 + rng.f64() * 100.0;
     let along_meridian = rng.chance(3, 4);
-    let (start, brg) = if along_meridian {
+    // `exact`: the first report after the silence is sent from EXACTLY one zone further than the last report of the
+    // same parity before it (to the resolution of a tick, 0.35 m): same parity, same YZ and XZ as the frame the cache
+    // still holds — an "unchanged frame" shortcut without an age limit answers with the stale position, one zone off.
+    // Along a meridian both ends stay in the NL = 59 band so that XZ is unchanged as well.
+    let exact = rng.chance(1, 3);
+    let (start, brg) = if along_meridian && exact {
+        let north = rng.chance(1, 2);
+        let lat = if north { rng.f64() * 14.0 - 10.0 } else { rng.f64() * 14.0 - 4.0 };
+        ((lat, deg(random_lon(rng))), if north { 0.0 } else { 180.0 })
+    } else if along_meridian {
         ((rng.f64() * 120.0 - 60.0, deg(random_lon(rng))), *rng.pick(&[0.0, 180.0]))
     } else {
         ((0.0, deg(random_lon(rng))), *rng.pick(&[90.0, 270.0]))
@@ -948,8 +957,8 @@ fn gen_air_alias(rng: &mut Rng, tab: &[(i128, u32)]) -> Hist {
     } else {
         360.0 / (59.0 - q as f64) // NL = 59 on the equator
     };
-    let arc = zone * (1 + rng.below(2)) as f64 + (rng.f64() - 0.5) * 0.88;
-    let gap = (arc / (kt * KT_DEG_PER_S) * TICKS as f64) as i64;
+    let arc = if exact { zone } else { zone * (1 + rng.below(2)) as f64 + (rng.f64() - 0.5) * 0.88 };
+    let gap = (arc / (kt * KT_DEG_PER_S) * TICKS as f64).round() as i64;
     let t_last = *ts.last().unwrap();
     let mut t = t_last + gap;
     let n2 = 3 + rng.below(6) as usize;
@@ -959,6 +968,11 @@ fn gen_air_alias(rng: &mut Rng, tab: &[(i128, u32)]) -> Hist {
     }
     let mut ps = parities(rng, ts.len());
     ps[n1] = q;
+    if exact {
+        // the cached frame of parity q is the last one before the silence, decoded with its neighbour of the other parity
+        ps[n1 - 1] = q;
+        ps[n1 - 2] = 1 - q;
+    }
     let reps: Vec<Rep> = ts.iter().zip(&ps).map(|(t, p)| f.report(tab, *t, *p)).collect();
     Hist { upd: false, d1090: false, reference: None, reps }
 }
